@@ -72,11 +72,9 @@ impl ServerAeadCodec {
     ) -> anyhow::Result<Option<InboundIn>> {
         match header.command {
             RequestCommand::TCP => {
-                if let Some(msg) = decoder.decode_payload(src, session).map_err(|e| anyhow!(e))? {
-                    Ok(Some(InboundIn::ConnectTcp(msg, header.address.clone())))
-                } else {
-                    Ok(None)
-                }
+                // the connect message is due as soon as the header is known, even if no payload chunk has arrived yet
+                let msg = decoder.decode_payload(src, session).map_err(|e| anyhow!(e))?.unwrap_or_default();
+                Ok(Some(InboundIn::ConnectTcp(msg, header.address.clone())))
             }
             RequestCommand::UDP => {
                 if let Some(msg) = decoder.decode_packet(src, session).map_err(|e| anyhow!(e))? {
